@@ -15,13 +15,14 @@ P = {
     "coq_targets": ["C15/Spec.vo", "C15/QueryLemmas.vo", "C15/Proofs.vo", "C15/MainProof.vo", "Properties/C15.vo", "Run/Eval_C15.vo"],
     "theorems_module": "Properties.C15",
     "theorems": [
-        "C15_view_wellformed", "C15_view_is_request_path",
-        "C15_wire_path_exact", "C15_wire_path_on", "C15_decoded_path", "C15_scheme_rewritten", "C15_request_line", "C15_query_untouched",
-        "C15_query_only_removed", "C15_query_only_removed_pinned",
-        "C15_headers_name_by_name", "C15_pipeline_header_wins", "C15_pipeline_host_wins", "C15_host_is_forward_to",
-        "C15_no_forwarded_passthrough", "C15_forwarded_extended_by_peer", "C15_method_body_untouched",
-        "C15_header_names_any_casing", "C15_request_path_end_to_end", "C15_spec_holds",
+        "C15_view_wellformed",
+        "C15_wire_path_exact", "C15_wire_path_on", "C15_decoded_path", "C15_request_path_end_to_end",
+        "C15_query_only_removed", "C15_query_only_removed_pinned", "C15_query_kept_bytes", "C15_parse_encode_roundtrip",
+        "C15_headers_name_by_name", "C15_pipeline_header_wins", "C15_pipeline_header_on_the_wire", "C15_pipeline_host_wins",
+        "C15_no_forwarded_passthrough", "C15_forwarded_extended_by_peer", "C15_header_names_any_casing",
+        "C15_spec_holds",
         "C15_F1_pinned_refuted", "C15_F4_pinned_refuted", "C15_F2_refuted", "C15_F3_refuted", "C15_F5_refuted",
+        "C15_F6_refuted", "C15_F7_refuted", "C15_F8_observed_refuted",
         "C15_nonvacuous",
     ],
     "streams": [{
@@ -29,19 +30,19 @@ P = {
         "overlay": {"internal/handler/proxy/zz_verif_c15_test.go": "c15/c15_test.go"},
         "eval_module": "Run.Eval_C15", "check_term": "check repaired",
         "n_quick": 1200, "n_thorough": 30000, "shard": 150,
-        "findings": {2: "C15-F2", 3: "C15-F3", 5: "C15-F5"},
+        "findings": {2: "C15-F2", 3: "C15-F3", 5: "C15-F5", 6: "C15-F6", 7: "C15-F7", 8: "C15-F8"},
     }, {
         "name": "units", "pkg": "./internal/rules/config", "test": "TestVerifC15Units",
         "overlay": {"internal/rules/config/zz_verif_c15_units_test.go": "c15/c15_units_test.go"},
         "eval_module": "Run.Eval_C15", "check_term": "ucheck repaired",
         "n_quick": 1500, "n_thorough": 40000, "shard": 300,
-        "findings": {},
+        "findings": {6: "C15-F6"},
     }, {
         "name": "e2e", "pkg": "./internal/zzverif/c15e2e", "test": "TestVerifC15E2E",
         "overlay": dict(ASSEMBLY_OVERLAY, **{"internal/zzverif/c15e2e/c15_e2e_test.go": "c15/c15_e2e_test.go"}),
         "eval_module": "Run.Eval_C15", "check_term": "check repaired",
         "n_quick": 400, "n_thorough": 6000, "shard": 150,
-        "findings": {2: "C15-F2", 3: "C15-F3", 5: "C15-F5"},
+        "findings": {2: "C15-F2", 3: "C15-F3", 5: "C15-F5", 6: "C15-F6", 7: "C15-F7", 8: "C15-F8"},
     }],
     "rule": "requests written byte for byte over TCP (request target of 1-4 segments built from words, percent-escapes of reserved / "
             "unreserved / non-ASCII bytes in either hex case, reserved literals, bytes net/url re-encodes, broken escapes; queries with "
